@@ -1,7 +1,7 @@
 from campaigns_util import B
 
 SPEC = {
-    "pkg": "props/c14", "level": "exploration",
+    "pkg": "props/c14", "level": "exploration", "bins": ["ts-server"],
     "rule": ("generated catalogue (1-2 store nodes, 1-3 partitions each, shard-group duration 1h/2h/1d/7d, policy duration INF or set so that a chosen group expires a generated "
              "delta (2 min .. half a group, both signs) before/after the run's clock reading T0; groups -1..12 group-durations back from now) built with the commands ts-meta applies; "
              "histories of ALTER ... DURATION (shorten / lengthen / INF), writes creating groups, and retention rounds per node. service: the REAL retention.Service ticks through its own loop "
@@ -9,7 +9,7 @@ SPEC = {
              "everything a round deletes, marks or prunes belongs to a group with end + CURRENT duration < now; duration 0 never; an unexpired or lengthened-in-time group stays untouched in the catalogue; "
              "every shard of an expired group is deleted by its owner's round and the group leaves the catalogue once all owners ran. logkeeper_selection: metaclient.GetExpiredShards + DelayDeleteShardGroup "
              "select/mark exactly the expired groups. open_shard: engine.NewShard(...).IsExpired() for an open shard, before and after duration updates. expired_groups_pure: "
-             "RetentionPolicyInfo.ExpiredShardGroups(t) with an explicit clock at end+duration-1ns/0/+1ns. Non-trivial: the history contains an ALTER that flips a group's expiry and a later round "
+             "bb_alter_scenarios: the real server with retention check-interval 1 s, a point in an ended 1 h group and generated ALTER ... DURATION steps (deadline 14-24 s ahead, already passed, unlimited, far) with real waiting: the point stays while the deadline in force is >= 6 s ahead, is removed within 40 s once a deadline passed. RetentionPolicyInfo.ExpiredShardGroups(t) with an explicit clock at end+duration-1ns/0/+1ns. Non-trivial: the history contains an ALTER that flips a group's expiry and a later round "
              "(service/logkeeper), a duration update that flips IsExpired (open_shard), a +-1 ns boundary (pure); distinct = hash of the case"),
     "assumptions": [
         "the code reads time.Now() itself: cases are relative to the wall clock, every verdict has a margin of >= 2 minutes; a run that stalls for more than 1 minute is inconclusive",
@@ -21,15 +21,16 @@ SPEC = {
         {"name": "service", "run": "^TestRetentionService$", "quick": B(600, 6), "thorough": B(60000, 8, 5400)},
         {"name": "logkeeper_selection", "run": "^TestLogkeeperSelection$", "quick": B(3000, 1), "thorough": B(300000, 2, 5400)},
         {"name": "open_shard", "run": "^TestOpenShardIsExpired$", "quick": B(500, 2), "thorough": B(40000, 3, 5400)},
+        {"name": "bb_alter_scenarios", "run": "^TestBBRetentionScenarios$", "quick": B(1, 6, 900, shrinktime="1s"), "thorough": B(8, 8, 3400, shrinktime="1s")},
         {"name": "expired_groups_pure", "run": "^TestExpiredShardGroupsPure$", "quick": B(20000, 1), "thorough": B(2000000, 2, 5400)},
     ],
 }
 
 META = {
     "engine": "lib-rapid",
-    "technique": "property-based testing of the retention service's expiry selection against the arithmetic of the statement, over generated catalogues and ALTER histories, relative to the wall clock with wide margins",
+    "technique": "property-based testing (rapid; library campaigns plus real-server scenarios) of the retention service's expiry selection against the arithmetic of the statement, over generated catalogues and ALTER histories, relative to the wall clock with wide margins",
     "text": ("The real retention service, the real engine's expiry test for not-loaded and open shards and the meta client's expired-group query must select for deletion exactly the shard groups "
              "whose span ended more than the policy's current duration ago; unlimited policies never lose groups; lengthening before a round keeps the group; expired groups leave the catalogue. "
              "Exploration: finds counterexamples, never proves absence."),
-    "note": "Library level; no data files are written or deleted. The wall clock cannot be moved: boundary behaviour closer than 2 minutes to end+duration is only covered for the pure function with an explicit clock.",
+    "note": "Mostly library level (no data files written or deleted there); the bb_alter_scenarios campaign runs a handful of real-server scenarios with seconds-scale margins. The wall clock cannot be moved: boundary behaviour closer than 2 minutes to end+duration is only covered for the pure function with an explicit clock.",
 }
